@@ -9,6 +9,7 @@ LITERAL_KINDS = {"Symbol", "NatLit", "IntLit", "RatioLit", "BoolLit", "Plus", "M
 TEXTS = [
     'a = "x\\ny" + b', 'print! "a\\tb", c', 'a = "\\\\" + b', 'x = "\\x41" + y', "a = '''m\nn''' + b", 'a = """m\nn""" + b',
     'a = 1 #[ c ]# + b', 'f "\\{x}" , y', 'a = "é\\n" + b', '"', '"\\', '"\\x', '"\\x4', '"""a\\', "'''\\", '"a\\{b}c\\', '"\\{', 'a = "s" + b',
+    'x = (1,' + '\n' * 200000 + '2)', 'x = 1 +' + '\\\n' * 200000 + '2',   # blank lines inside brackets / line continuations: no stack growth per line
     'a =\n    1\nb = 2', 'if True:\n    a = "q\\n" + c\n', 'a = #[ x\n y ]# 1 + b', '\\', 'a\\', "'", "''", '"""', "'''", 'a = "\\0\\r\\\'\\"" + z',
 ]
 
